@@ -83,8 +83,11 @@ def order_by_sort_key(check, h, call, subst):
     check.ob('C19.R1', '%s::returns-priority-then-rest' % h.key, True, h.where, 'returns ' + unparse(call)[:60], '')
 
 
-def order_helper(check, h):
+def order_helper(check, h, prog=None):
     """R1: the helper returns  [priority names present, in SortPriority order] + [the other keys, sorted]"""
+    if prog is not None:
+        from ..inline import flatten
+        h = flatten(prog, h)
     g = cfgmod.build(h)
     subst = single_assign_subst(h.node)
     rets = [n for n in ast.walk(h.node) if isinstance(n, ast.Return) and n.value is not None and
@@ -207,7 +210,7 @@ def run(prog, check):
     check.saw(r)
     check.saw(h)
     # ---- R1 ----------------------------------------------------------------------------------------
-    order_helper(check, h)
+    order_helper(check, h, prog)
     priority_is_fixed(prog, check, h)
     # ---- R2 ----------------------------------------------------------------------------------------
     from ..tableterm import TableEval, line_groups, expected_groups, alpha_eq, show, SEQ
